@@ -295,6 +295,29 @@ def run_one(spec):
         res['other'] = outcome(other, wait=8)
         res['later'] = outcome(pool.apply_async(t_double, (7,)), wait=8)
         res['size'] = len(pool._pool)
+        if res['other'][0] != 'ok' or res['later'][0] != 'ok':
+            # diagnosis of a wedged pool: which lock is lost, who is alive, where the workers sleep
+            diag = {}
+            for name, lk in (('out_wlock', pool._outqueue._wlock), ('out_rlock', pool._outqueue._rlock),
+                             ('in_rlock', pool._inqueue._rlock), ('in_wlock', getattr(pool._inqueue, '_wlock', None))):
+                if lk is None:
+                    continue
+                got = lk.acquire(False)
+                diag[name] = 'free' if got else 'HELD'
+                if got:
+                    lk.release()
+            diag['threads'] = dict(result=pool._result_handler.is_alive(), task=pool._task_handler.is_alive(),
+                                   supervisor=pool._worker_handler.is_alive())
+            diag['workers'] = []
+            for w in pool._pool:
+                try:
+                    wchan = open('/proc/%d/wchan' % w.pid).read()
+                except OSError:
+                    wchan = '?'
+                diag['workers'].append([w.pid, alive(w.pid), wchan])
+            diag['task_unread'] = bool(pool._inqueue._reader.poll(0))
+            diag['result_unread'] = bool(pool._outqueue._reader.poll(0))
+            res['diag'] = diag
         TEARDOWN.append(pool)
     elif kind == 'recycle':
         pool = bp.Pool(spec.get('n', 2), maxtasksperchild=spec.get('maxtasks', 2), threads=True)
